@@ -237,6 +237,9 @@ func genC18(c *Ctx) error {
 				if rng.Intn(10) == 0 {
 					v.Flaw = []string{"unknown_field", "wrong_type", "not_json"}[rng.Intn(3)]
 				}
+				if !isToken && rng.Intn(3) == 0 {
+					v.Flaw = "unknown_field" // a contract on the base contract alone has one validator only: it must be strict
+				}
 				// the chaincode-specific section: validated by the contract that declares one, carried along by the others
 				if isExt {
 					v.Ext = []string{"ok", "ok", "ok", "ok2", "ok2", "ok", "", "empty_addr"}[rng.Intn(8)]
